@@ -10,6 +10,7 @@ from ..symexec import SymExec, freeze, show, Path, Event
 from .. import opmodel as om
 from .. import functab
 from .. import actions as A
+from .. import ctx as C
 from . import common
 from .c16 import lookup_sites
 
@@ -64,25 +65,9 @@ def key_uses(F, fi, cparam: str, kparam: str) -> List[Tuple[Optional[bool], Opti
     return out
 
 
-def check(chk: Check) -> None:
+def key_cast_agreement(chk: Check, R1: str):
+    """One key cast on every keyed path (shared with C07, whose reference semantics name the key-to-string cast)."""
     F = chk.facts
-    R1 = chk.rule('C14.R1', 'one key cast on every keyed path: get / read / del / write / compound write and dict '
-                            'literals apply the same normalisation to the key before every use, per container kind', floor=5)
-    R2 = chk.rule('C14.R2', 'indices truncate, never round: Decimal indices are converted with int(...) in the list '
-                            'branch of the cast and in insert / pop', floor=3)
-    R3 = chk.rule('C14.R3', 'failed reads raise ParserError and change nothing: every keyed read of an argument container '
-                            'and every pop converts the lookup error and no mutation of the container precedes it', floor=3)
-    R4 = chk.rule('C14.R4', 'explicit bounds tests in front of a list access admit every valid position: a comparison between the '
-                            'position and len(container) that guards the access holds for all -len <= k <= len-1 (linear check at both ends)', floor=1)
-    R5 = chk.rule('C14.R5', 'membership looks at the element itself: the `in` / `not in` operators test the evaluated left operand as '
-                            'it is - a position or key cast applied to the needle tests for a different element (2.5 in [1, 2] '
-                            'would find 2)', floor=1)
-    chk.decided += ['membership needles are not cast (R5)',
-                    'bounds tests never turn away a valid (incl. negative) position (R4)',
-                    'sibling agreement of the key normalisation across the five keyed accessors and dict literals (R1)',
-                    'truncating index conversion (R2)', 'lookup-error conversion without prior mutation (R3)']
-    chk.not_decided += ['model equivalence under operation sequences, negative-index arithmetic beyond explicit bounds tests, keys/values/items/len/in '
-                        'consistency: run-time container semantics of Python lists and dicts (no code shape to check)']
     tab = functab.table(F)
     # the keyed accessors: lowered index forms (from the grammar) + get
     acc: Dict[str, Tuple[str, int, int]] = {}     # FUNCTIONS key -> (function, container idx, key idx)
@@ -97,6 +82,10 @@ def check(chk: Check) -> None:
     for name, (q, ci, ki) in sorted(acc.items()):
         fi = F.func(q)
         params = [a.arg for a in fi.node.args.args]
+        if len(params) <= max(ci, ki):
+            chk.bad(R1, 'FUNCTIONS[%r] -> %s' % (name, q), fi.where, 'takes %d parameter(s): there is no key parameter to cast' % len(params))
+            per[name] = {'dict': set(), 'list+dec': set(), 'list': set()}
+            continue
         uses = key_uses(F, fi, params[ci], params[ki])
         d: Dict[str, Set[Any]] = {'dict': set(), 'list+dec': set(), 'list': set()}
         for isdict, isdec, nf, e in uses:
@@ -133,6 +122,32 @@ def check(chk: Check) -> None:
                     '; '.join(problems) or 'dict: str(key); list: int(key) for Decimal, key otherwise')
     chk.require(lit == STR_K, R1, 'dict literal keys', F.func('smartquery.ast_ops.DictOp.eval').where if 'smartquery.ast_ops.DictOp.eval' in F.functions else '',
                 'literal keys are cast as %s' % (show(lit) if lit is not None else 'nothing recognisable'))
+    return acc, per
+
+
+def check(chk: Check) -> None:
+    F = chk.facts
+    R1 = chk.rule('C14.R1', 'one key cast on every keyed path: get / read / del / write / compound write and dict '
+                            'literals apply the same normalisation to the key before every use, per container kind', floor=5)
+    R2 = chk.rule('C14.R2', 'indices truncate, never round: Decimal indices are converted with int(...) in the list '
+                            'branch of the cast and in insert / pop', floor=3)
+    R3 = chk.rule('C14.R3', 'failed reads raise ParserError and change nothing: every keyed read of an argument container '
+                            'and every pop converts the lookup error and no mutation of the container precedes it', floor=3)
+    R4 = chk.rule('C14.R4', 'explicit bounds tests in front of a list access admit every valid position: a comparison between the '
+                            'position and len(container) that guards the access holds for all -len <= k <= len-1 (linear check at both ends)', floor=1)
+    R5 = chk.rule('C14.R5', 'membership looks at the element itself: the `in` / `not in` operators test the evaluated left operand as '
+                            'it is - a position or key cast applied to the needle tests for a different element (2.5 in [1, 2] '
+                            'would find 2)', floor=1)
+    chk.decided += ['membership needles are not cast (R5)',
+                    'bounds tests never turn away a valid (incl. negative) position (R4)',
+                    'sibling agreement of the key normalisation across the five keyed accessors and dict literals (R1)',
+                    'truncating index conversion (R2)', 'lookup-error conversion without prior mutation (R3)']
+    chk.not_decided += ['model equivalence under operation sequences, negative-index arithmetic beyond explicit bounds tests, keys/values/items/len/in '
+                        'consistency: run-time container semantics of Python lists and dicts (no code shape to check)']
+    acc, per = key_cast_agreement(chk, R1)
+    INT_K = ('call', 0, ('ref', 'builtin', 'int'), ('K',), ())
+    STR_K = ('call', 0, ('ref', 'builtin', 'str'), ('K',), ())
+    tab = functab.table(F)
 
     # --------------------------------------------------------------------- R2
     n2 = 0
@@ -160,6 +175,7 @@ def check(chk: Check) -> None:
 
     index_guards(chk, R4, acc)
     _membership(chk, R5)
+    _fresh_literals(chk)
 
     # --------------------------------------------------------------------- R3
     sites = lookup_sites(chk)
@@ -175,6 +191,40 @@ def check(chk: Check) -> None:
         muts = mutation_events(F, SymExec(F, fi).run())
         chk.require(not muts, R3, 'FUNCTIONS[%r] reads without writing' % name, fi.where,
                     '; '.join(sorted({m[2] for m in muts})) or 'no mutation of the container in the reader')
+
+
+def _fresh_literals(chk: Check) -> None:
+    """`[]`, `[a, b]`, `{}` and `{k: v}` denote a new container each time they are evaluated (x => [] is a factory of empty lists).
+    That holds when the production builds a call of the list/dict builtin or a node whose eval builds the container; it fails
+    when the container itself is put into the tree as a constant: every evaluation then hands out that one object."""
+    F = chk.facts
+    R6 = chk.rule('C14.R6', 'a container literal is a new container on every evaluation: no production of a bracket or brace literal '
+                            'stores a list / dict / set display in a value field of a node (the node would return the same object '
+                            'each time, so what one use pushes the next use finds)', floor=4)
+    g = C.grammar(F)
+    lm = C.lexmodel(F)
+    T = C.templates(F)
+    opening = {s for s, tx in lm.token_texts.items() if tx is not None and tx and tx <= {'[', '{'}}
+    n = 0
+    for t in T.all():
+        rhs = t.prod.rhs
+        if not rhs or rhs[0] not in opening or t.raises is not None:
+            continue
+        n += 1
+        bad = []
+        for cls, flds in A.new_nodes(t.result):
+            kinds = om.op_field_kinds(F, cls) if cls in F.classes else {}
+            for fn_, fv in flds:
+                if kinds.get(fn_) in ('oplist', 'pairlist', 'op', 'str'):
+                    continue
+                if isinstance(fv, tuple) and fv[:1] in (('list',), ('dict',), ('set',)) or (
+                        isinstance(fv, tuple) and fv[:1] == ('call',) and fv[2] in (('ref', 'builtin', 'list'), ('ref', 'builtin', 'dict'), ('ref', 'builtin', 'set'))):
+                    bad.append('%s.%s = %s' % (cls.rsplit('.', 1)[-1], fn_, show(fv)))
+        chk.require(not bad, R6, t.key, '%s:%d' % (g.module.rel, getattr(t.prod, 'line', 0)),
+                    'the container %s is built once, by the parser, and kept in the tree: every evaluation of the literal returns that '
+                    'same object' % ', '.join(bad) if bad else 'builds a node that makes the container when it is evaluated')
+    if n == 0:
+        raise AnalysisError('anchor vanished: no production starts with an opening bracket or brace')
 
 
 def _membership(chk: Check, R5: str) -> None:
